@@ -48,6 +48,19 @@ fn math_part<B: StarkField>(name: &str, out: &mut BTreeMap<String, String>, size
             let mut w2 = poly.clone();
             fft::interpolate_poly_with_offset(&mut w2, &itw, B::GENERATOR);
             out.insert(format!("{name}/interpolate_poly_with_offset/{n}"), dig(&elems_bytes(&w2)));
+            // offsets other than the generator: one (the subgroup itself), minus one, an arbitrary element
+            for (oname, off) in [("one", B::ONE), ("minus-one", -B::ONE), ("other", poly[0] + B::ONE)] {
+                if off == B::ZERO {
+                    continue;
+                }
+                let mut w3 = v.clone();
+                fft::interpolate_poly_with_offset(&mut w3, &itw, off);
+                out.insert(format!("{name}/interpolate_poly_with_offset[{oname}]/{n}"), dig(&elems_bytes(&w3)));
+                for blowup in [1usize, 2, 8] {
+                    let e = fft::evaluate_poly_with_offset(&poly, &tw, off, blowup);
+                    out.insert(format!("{name}/evaluate_poly_with_offset[{oname}]/{n}x{blowup}"), dig(&elems_bytes(&e)));
+                }
+            }
             out.insert(format!("{name}/twiddles/{n}"), dig(&elems_bytes(&tw)));
         }
         out.insert(format!("{name}/power_series/{n}"), dig(&elems_bytes(&get_power_series(poly[0], n))));
